@@ -71,7 +71,7 @@ SPECS = {
     ),
     "C02": dict(
         title="glitch freedom",
-        streams=[("binds", 1500, 40000, 40), ("basic", 500, 20000, 30)],
+        streams=[("binds", 700, 40000, 40), ("basic", 300, 20000, 30)],
         proj=dict(keep_ops=("stabilise",), keep_events=("inv", "foldcall", "bindrun", "rec")),
         oracle=O.oracle_glitch_free, profiles=("debug", "release"), dump=True,
         nontrivial=lambda src, ops: any(len([e for e in o.events if e.startswith("inv")]) >= 2 for o in ops),
@@ -79,7 +79,7 @@ SPECS = {
     ),
     "C03": dict(
         title="bind scopes",
-        streams=[("binds", 1500, 40000, 40), ("exports", 1000, 30000, 40)],
+        streams=[("binds", 600, 40000, 40), ("exports", 500, 30000, 40)],
         proj=dict(keep_ops=("stabilise", "read"), keep_events=("inv", "bindrun", "foldcall", "upd", "invalidate")),
         oracle=O.oracle_bind_scopes, profiles=("debug", "release"), dump=True,
         nontrivial=lambda src, ops: any("gen=" in e and "gen=0" not in e for o in ops for e in o.events if e.startswith("bindrun")),
@@ -95,7 +95,7 @@ SPECS = {
     ),
     "C05": dict(
         title="only needed nodes are computed",
-        streams=[("observers", 1500, 40000, 40), ("basic", 500, 20000, 30)],
+        streams=[("observers", 1000, 40000, 40), ("basic", 300, 20000, 30)],
         proj=dict(keep_ops=("stabilise", "stats"), keep_events=("inv", "foldcall", "bindrun", "rec")),
         oracle=O.oracle_only_needed, profiles=("debug",), dump=True,
         nontrivial=lambda src, ops: any(l.startswith(("dropobs", "disallow")) for l in src) and any(o.events for o in ops),
@@ -103,7 +103,7 @@ SPECS = {
     ),
     "C06": dict(
         title="cutoffs gate propagation",
-        streams=[("cutoffs", 2000, 50000, 40)],
+        streams=[("cutoffs", 1200, 50000, 40)],
         proj=dict(keep_ops=("stabilise",), keep_events=("inv", "cut", "foldcall", "bindrun", "rec"), sort_events=False),
         oracle=O.oracle_cutoffs, profiles=("debug",), dump=True,
         nontrivial=lambda src, ops: any(l.startswith("cutoff") for l in src) and any(o.events for o in ops),
@@ -147,7 +147,7 @@ SPECS = {
     ),
     "C11": dict(
         title="bookkeeping audit after every action",
-        streams=[("basic", 600, 20000, 40), ("binds", 600, 20000, 40), ("drops", 600, 20000, 40), ("subs", 400, 20000, 40)],
+        streams=[("basic", 400, 20000, 40), ("binds", 400, 20000, 40), ("drops", 400, 20000, 40), ("subs", 300, 20000, 40)],
         proj=dict(keep_ops=None, keep_events=("rec", "nec", "unnec", "invalidate"), dump=True, sort_events=False),
         oracle=O.oracle_audit, profiles=("debug",), dump=True,
         nontrivial=lambda src, ops: sum(1 for l in src if l == "stabilise") >= 2,
